@@ -129,7 +129,7 @@ type bounds struct {
 	TokLongLen  int    // exactly this length over TokLongAlpha (two configurations)
 	TokLongAlph string // mid (32 tokens, quick) | core (48 tokens, thorough)
 	TokSubLen   int    // 0 = none; else exactly this length over tokSub (two configurations)
-	B256Len     int // lengths 0..B256Len over all 256 bytes
+	B256Len     int    // lengths 0..B256Len over all 256 bytes
 	B256FullCfg int
 	B16Len      int // lengths B256Len+1..B16Len over bytes16
 	B16FullCfg  int
